@@ -31,6 +31,8 @@ def obs_space(family: str):
         return spaces.Box(0.0, 1.0, (3, 16, 16), dtype=np.float32)
     if family == "dict":
         return spaces.Dict({"vec": spaces.Box(-1.0, 1.0, (3,), dtype=np.float32), "num": spaces.Discrete(3)})
+    if family == "boxdict":
+        return spaces.Dict({"a": spaces.Box(-1.0, 1.0, (3,), dtype=np.float32), "b": spaces.Box(-2.0, 2.0, (2,), dtype=np.float32)})
     if family == "tuple":
         return spaces.Tuple((spaces.Box(-1.0, 1.0, (3,), dtype=np.float32), spaces.Discrete(3)))
     if family == "discrete":
@@ -41,7 +43,7 @@ def obs_space(family: str):
 def net_config(family: str):
     if family == "image":
         return {"encoder_config": {"channel_size": [4], "kernel_size": [3], "stride_size": [2]}, "head_config": {"hidden_size": [16]}}
-    if family in ("dict", "tuple"):
+    if family in ("dict", "tuple", "boxdict"):
         return {"encoder_config": {"latent_dim": 8, "mlp_config": {"hidden_size": [16]}}, "head_config": {"hidden_size": [16]}}
     return copy.deepcopy(NET)
 
